@@ -88,7 +88,10 @@ class Harness:
 
     @property
     def pi(self):
-        return Poly.pi() if self.symbolic else np.pi
+        if self.symbolic:
+            self.ctx.sym_pi = True
+            return Poly.pi()
+        return np.pi
 
     def assume(self, cond):
         if not self.symbolic:
